@@ -473,6 +473,7 @@ pub fn monitor_lines(e: &Exec, nthreads: usize) -> Vec<String> {
     let mut slots: HashMap<(usize, usize), usize> = HashMap::new();
     let mut lines: Vec<String> = vec![];
     let mut torn_by: Option<usize> = None;
+    let mut torn_done = false;
     let mut frees_in_teardown = 0usize;
     let mut last_now: u32 = 0;
     // per thread: what the last lock point was, and what was seen since
@@ -505,7 +506,7 @@ pub fn monitor_lines(e: &Exec, nthreads: usize) -> Vec<String> {
             // the end of a read section of a slot: followed (in the same run segment) by a hit or a miss
             // note unless it is the re-read after `try_write`
             Ev::Note(Note::Released { write: false, what: cstree::verif::LockKind::Slot, .. }) => {
-                let next = e.trace[ix + 1..].iter().find(|(u, _)| u == t0).map(|(_, ev)| ev);
+                let next = e.trace[ix + 1..].iter().find(|(u, ev)| u == t0 && !matches!(ev, Ev::Note(Note::Access { .. }))).map(|(_, ev)| ev);
                 if !matches!(next, Some(Ev::Note(Note::SlotHit { .. })) | Some(Ev::Note(Note::SlotMiss { .. }))) {
                     flush_read(t, &mut seg, &mut lines);
                 }
@@ -541,6 +542,7 @@ pub fn monitor_lines(e: &Exec, nthreads: usize) -> Vec<String> {
                         if *count_cell {
                             lines.push(format!("ev {} torn {} {}", t, last_now as i32, frees_in_teardown));
                             torn_by = None;
+                            torn_done = true;
                         } else {
                             frees_in_teardown += 1;
                         }
@@ -583,6 +585,16 @@ pub fn monitor_lines(e: &Exec, nthreads: usize) -> Vec<String> {
                             }
                         }
                         None => {}
+                    }
+                }
+                // a dereference of a red node: one `acc` per run of accesses of a thread (the teardown's own
+                // accesses belong to the decrement that triggered it)
+                Note::Access { .. } => {
+                    if torn_by != Some(t) && !torn_done {
+                        let l = format!("ev {} acc", t);
+                        if lines.last() != Some(&l) {
+                            lines.push(l);
+                        }
                     }
                 }
                 _ => {}
